@@ -13,7 +13,8 @@ from ..values import SInt
 
 PROPERTY = "C17"
 MODULES = ["mesh"]
-FUNCTIONS = ["mesh.save_mesh_as_precomputed", "mesh.read_precomputed_mesh", "mesh.affine_transform_mesh"]
+FUNCTIONS = ["mesh.save_mesh_as_precomputed", "mesh.read_precomputed_mesh", "mesh.affine_transform_mesh",
+             "scripts.mesh_to_precomputed.mesh_file_to_precomputed", "scripts.link_mesh_fragments.make_mesh_fragment_links"]
 STUBS = ["np -> NPProxy; struct -> StructProxy; file objects -> in-memory symbolic byte streams",
          "float32 vertices that are only moved are opaque 32-bit patterns (bit-exact round trip incl. NaN and -0)",
          "affine algebra over exact reals (z3 Real): np.dot = exact sum of products, np.linalg.det = cofactor formula"]
@@ -27,7 +28,7 @@ BOUNDS = {"quick": "N in 0..3 vertices, M in 0..2 triangles (all values); reader
                    "affine: all real 3x4 / 4x4 matrices, one arbitrary triangle and reference point",
           "thorough": "reader lengths up to 64; N<=4, M<=3"}
 OUTSIDE = ["VTK ASCII export (np.savetxt float formatting)", "GIfTI parsing (nibabel)", "near-zero float determinants",
-           "mesh_to_precomputed / link_mesh_fragments command plumbing (file/JSON handling, no value computation)"]
+           "mm->nm scaling when 10^6 * coordinate is not exactly representable in float32 (float rounding)"]
 
 
 def configs(tier, seed):
@@ -42,6 +43,9 @@ def configs(tier, seed):
         out.append(dict(harness="reader", L=L, cost=1 + L // 8, max_paths=100000, wall=1200))
     for rows in (3, 4):
         out.append(dict(harness="affine", rows=rows, cost=3, timeout_ms=120000))
+    for N, e in ((1, 0), (2, -2), (3, 3)):
+        out.append(dict(harness="mm_to_nm", N=N, e=e, cost=1))
+    out.append(dict(harness="fragments", cost=1))
     return out
 
 
@@ -204,6 +208,87 @@ def H_affine(ctx, cfg):
               "triangle-orientation-wrt-any-point-is-preserved")
 
 
+def H_mm_to_nm(ctx, cfg):
+    """mesh-to-precomputed: vertices given in millimetres are stored in nanometres (x 10^6), exactly when representable."""
+    import types
+    from . import _vol as V
+    from ..sarray import SDy
+    W = V.World()
+    N, e = cfg["N"], cfg["e"]
+    a = real_np.empty((N, 3), dtype=object)
+    ms = []
+    for idx in real_np.ndindex(N, 3):
+        m = z3.Int("p_" + "_".join(map(str, idx)))
+        ctx.assume(z3.And(m > -16, m < 16))          # 10^6 * m * 2^e stays exactly representable in float32
+        ms.append(m)
+        a[idx] = SDy(m, e, 5, real_np.float32)
+    ctx.input("mantissas", ms)
+    pts = SArray(a, real_np.float32)
+    tris = SArray.from_elems([SBV.const(i % N, "int32") for i in range(3)], "int32", (1, 3))
+    gii = types.SimpleNamespace(get_arrays_from_intent=lambda name: [types.SimpleNamespace(data=pts if "POINTSET" in name else tris)])
+    mesh = load.patch("mesh", np=W.npx, struct=StructProxy())
+
+    class BytesIO(ByteStream):
+        def getvalue(self):
+            return self.data
+    mod = W.script("mesh_to_precomputed", nibabel=types.SimpleNamespace(load=lambda p: gii), np=W.npx,
+                   io=types.SimpleNamespace(BytesIO=BytesIO))
+    info = V.make_info("uint32", 1, (2, 2, 2), (2, 2, 2))
+    info["type"] = "segmentation"
+    W.put_info("/mfs/m", info)
+    rc = mod.mesh_file_to_precomputed("/in/surf.gii", "/mfs/m", options={"gzip": False})
+    ctx.prove(rc is None, "conversion-succeeds", detail=str(rc))
+    stored = W.env.fs.files.get("/mfs/m/mesh/surf")
+    if stored is None:
+        ctx.fail("mesh-file-stored-under-mesh-dir", detail=str(sorted(W.env.fs.files)))
+        return
+    import json as _json
+    ctx.prove(_json.loads(bytes(W.env.fs.files["/mfs/m/info"].concrete())).get("mesh") == "mesh", "info-gets-the-mesh-key")
+    v, t = mesh.read_precomputed_mesh(ByteStream(stored))
+    ctx.sample(dict(N=N, exponent=e, file_len=len(stored)))
+    conds = []
+    for idx in real_np.ndindex(N, 3):
+        n, d = v.a[idx].value_num_den()
+        on, od = a[idx].value_num_den()
+        conds.append(n * od == 1000000 * on * d)
+    ctx.prove(z3.And(conds), "stored-vertex-is-10^6-times-the-input-vertex")
+
+
+def H_fragments(ctx, cfg):
+    """link-mesh-fragments: one JSON file per label listing exactly the fragments given (enumerated tables)."""
+    from . import _vol as V
+    import json as _json
+    W = V.World()
+    bad = []
+    for colon in (False, True):
+        for gz in (False, True):
+            table = [("7", ["a", "b:0"]), ("12", []), ("3", ["only"]), ("7", ["second"])]
+            url = f"/mfs/f{int(colon)}{int(gz)}"
+            info = V.make_info("uint32", 1, (2, 2, 2), (2, 2, 2))
+            info["mesh"] = "mesh"
+            W.put_info(url, info)
+            csv_text = "".join(",".join([lab] + frs) + "\r\n" for lab, frs in table)
+            W.env.fs.mkdir_p("/in")
+            W.env.fs.files["/in/links.csv"] = __import__("vf.sbytes", fromlist=["SBytes"]).SBytes(csv_text.encode())
+            mod = W.script("link_mesh_fragments", open=W.env.open)
+            try:
+                rc = mod.make_mesh_fragment_links("/in/links.csv", url, no_colon_suffix=colon, options={"gzip": gz})
+            except Exception as e:
+                # the duplicated label must be refused or overwritten, not crash half-way... storing twice without overwrite fails
+                rc = f"{type(e).__name__}"
+            expect = {}
+            for lab, frs in table:
+                expect.setdefault(lab, frs)          # store_file without overwrite: the first entry of a label stays
+            for lab, frs in expect.items():
+                name = f"{url}/mesh/{lab}" + ("" if colon else ":0")
+                got = W.env.fs.files.get(name)
+                if got is None or _json.loads(bytes(got.concrete())) != {"fragments": frs}:
+                    bad.append([colon, gz, lab, None if got is None else bytes(got.concrete()).decode()])
+    ctx.input("bad", bad)
+    ctx.sample("4 option sets x 4-line fragment table")
+    ctx.prove(not bad, "fragment-link-files-list-exactly-the-fragments-of-each-label", detail=str(bad[:3]))
+
+
 # --------------------------------------------------------------------- replay
 
 def replay(cfg, cex):
@@ -242,6 +327,58 @@ def replay(cfg, cex):
         except Exception as e:
             return True, f"reader raised {type(e).__name__}: {e} on a valid mesh"
         return (v2.tobytes() != verts.tobytes() or t2.tobytes() != tris.tobytes()), "round trip"
+    if h == "mm_to_nm":
+        import os
+        import tempfile
+        import nibabel
+        import nibabel.gifti as gi
+        from fractions import Fraction
+        N, e = cfg["N"], cfg["e"]
+        pts = real_np.array([float(Fraction(m) * Fraction(2) ** e) for m in inp["mantissas"]], dtype=real_np.float32).reshape(N, 3)
+        tris = real_np.array([[i % N for i in range(3)]], dtype=real_np.int32)
+        mod = load.mod("scripts.mesh_to_precomputed")
+        pio = load.mod("precomputed_io")
+        acc_mod = load.mod("accessor")
+        with tempfile.TemporaryDirectory() as td:
+            fn = os.path.join(td, "surf.gii")
+            nibabel.save(gi.GiftiImage(darrays=[gi.GiftiDataArray(pts, intent="NIFTI_INTENT_POINTSET"),
+                                                gi.GiftiDataArray(tris, intent="NIFTI_INTENT_TRIANGLE")]), fn)
+            ds = os.path.join(td, "ds")
+            from . import _vol as V
+            info = V.make_info("uint32", 1, (2, 2, 2), (2, 2, 2))
+            info["type"] = "segmentation"
+            pio.get_IO_for_new_dataset(info, acc_mod.get_accessor_for_url(ds, {}))
+            try:
+                mod.mesh_file_to_precomputed(fn, ds, options={"gzip": False})
+                with open(os.path.join(ds, "mesh", "surf"), "rb") as f:
+                    v, t = mesh.read_precomputed_mesh(f)
+            except Exception as exc:
+                return True, f"mesh conversion failed: {type(exc).__name__}: {exc}"
+            want = (pts.astype(real_np.float64) * 1e6).astype(real_np.float32)
+            return (not real_np.array_equal(v, want)), f"stored vertices {v.ravel().tolist()} for input {pts.ravel().tolist()} mm (expected x 10^6)"
+    if h == "fragments":
+        import json as _json
+        import os
+        import tempfile
+        mod = load.mod("scripts.link_mesh_fragments")
+        pio = load.mod("precomputed_io")
+        acc_mod = load.mod("accessor")
+        from . import _vol as V
+        table = [("7", ["a", "b:0"]), ("12", []), ("3", ["only"])]
+        with tempfile.TemporaryDirectory() as td:
+            info = V.make_info("uint32", 1, (2, 2, 2), (2, 2, 2))
+            info["mesh"] = "mesh"
+            pio.get_IO_for_new_dataset(info, acc_mod.get_accessor_for_url(td, {}))
+            csvf = os.path.join(td, "links.csv")
+            with open(csvf, "w", newline="") as f:
+                f.write("".join(",".join([lab] + frs) + "\r\n" for lab, frs in table))
+            mod.make_mesh_fragment_links(csvf, td, no_colon_suffix=True, options={"gzip": False})
+            for lab, frs in table:
+                with open(os.path.join(td, "mesh", lab)) as f:
+                    got = _json.load(f)
+                if got != {"fragments": frs}:
+                    return True, f"label {lab}: link file lists {got}, expected fragments {frs}"
+        return False, "fragment links correct on the real code"
     if h == "affine":
         from fractions import Fraction
         A = real_np.array([float(Fraction(x)) for x in inp["matrix"]]).reshape(3, 4)
